@@ -18,7 +18,7 @@ def check(repo, tier):
     run.rule('D2', 'the returned modes satisfy the TT class invariant (4-dimensional cores, metadata agree); eigenvalues and mode columns are re-ordered by the same index; inputs untouched')
     run.rule('D3', 'x.pinv is called at the snapshot core (index order-1) with the caller\'s threshold / ortho_l / ortho_r')
     run.trusted = ['NumPy/SciPy transfer functions']
-    orders = (2, 3, 4) if tier == 'thorough' else (2, 3)
+    orders = (2, 3, 4)          # (order 4 = three spatial cores: the first order at which the loop over interior cores runs more than once)
     run.bounds = f'orders {orders} (last core = snapshots), all ortho flag combinations, threshold 0 and > 0'
 
     def F(qual, rule, what, msg):
@@ -26,6 +26,8 @@ def check(repo, tier):
         return Finding('C17', rule, fn.where, what, msg, fn.file, fn.node.lineno)
     for which, d, (ol, orr), thr in itertools.product(('tdmd_exact', 'tdmd_standard'), orders, ((True, True), (False, True), (True, False)), (0.0, 1e-6)):
         if tier == 'quick' and thr and (ol, orr) != (True, True):
+            continue
+        if tier == 'quick' and d == 4 and ((ol, orr) != (True, True) or thr):
             continue
         entry = f'{MOD}.{which}'
         scen = f'{which}(order={d}, ortho_l={ol}, ortho_r={orr}, threshold={thr})'
@@ -80,6 +82,17 @@ def check(repo, tier):
                 if noniso:
                     run.add(F(entry, 'D2', 'left-orthonormal part of the modes', f'{scen}: spatial core {noniso[0]} of the modes is not a left isometry: its unfolding is  '
                               f'{show_unf(modes._attrs["cores"][noniso[0]], "LO")}  (the projected DMD modes are U W with U^H U = I)'))
+            # D2 conjugation: the modes are (Y X^+ or U) W / lambda with the eigenvector matrix W itself -- on every def-use path the eigenvectors enter the mode
+            # coefficient core an even number of conjugations deep (W conjugated gives, for real data, the modes of the conjugate eigenvalues)
+            if ok:
+                par = l2rules.conj_parities(modes._attrs['cores'][-1], lambda a_: isinstance(a_.tags.get('prov'), dict) and a_.tags['prov'].get('role') == 'v' and 'eig' in a_.tags['prov']
+                                            and 'sel' not in a_.tags['prov'])
+                if not par:
+                    raise AnalysisError(f'{scen}: the eigenvectors of the reduced matrix do not reach the last core of the modes on any path the analysis follows')
+                run.oblige('D2', (entry, scen, 'conjugation'), par == {0})
+                if par != {0}:
+                    run.add(F(entry, 'D2', 'conjugation of the eigenvectors', f'{scen}: the eigenvector matrix of the reduced matrix enters the mode coefficients '
+                              + ('complex-conjugated' if par == {1} else 'both conjugated and unconjugated') + ': position k of the modes then holds the mode of the conjugate of eigenvalue k'))
             # D2 paired reorder
             if ok and isinstance(ev, Arr) and ev.ndim == 1:
                 lw = ev.legs[0]
